@@ -264,6 +264,54 @@ func (k divKind) String() string {
 
 func divFormOf(v ssa.Value) (kind divKind, num, den ssa.Value) {
 	v = stripIntConv(v)
+	// n := a / K; if a % K > 0 { n++ }  — the floor, plus one exactly when there is a remainder: the ceiling
+	if ph, ok := v.(*ssa.Phi); ok && len(ph.Edges) == 2 {
+		for i := 0; i < 2; i++ {
+			base, inc := stripIntConv(ph.Edges[i]), stripIntConv(ph.Edges[1-i])
+			b2, c := splitAddConst(inc)
+			if c != 1 || stripIntConv(b2) != base {
+				continue
+			}
+			q, okq := base.(*ssa.BinOp)
+			if !okq || q.Op != token.QUO {
+				continue
+			}
+			if _, isAtomN := stripIntConv(q.X).(*ssa.BinOp); isAtomN {
+				continue
+			}
+			// the incremented edge is taken exactly when a % K != 0
+			remNZ := func(gs []Guard, want bool) bool {
+				for _, g := range gs {
+					op, x, y, okc := cmpFact(g)
+					if !okc {
+						continue
+					}
+					z, okz := constInt(y)
+					r, okr := stripIntConv(x).(*ssa.BinOp)
+					if !okz || z != 0 || !okr || r.Op != token.REM {
+						continue
+					}
+					if stripIntConv(r.X) != stripIntConv(q.X) && !sameQuietFieldLoad(r.X, q.X) {
+						continue
+					}
+					pk1, pk2 := polyOf(r.Y, 0), polyOf(q.Y, 0)
+					if d := polyAdd(pk1, pk2, -1); !d.ok || len(d.t) != 0 {
+						continue
+					}
+					nz := op == token.NEQ || op == token.GTR
+					zr := op == token.EQL || op == token.LEQ
+					if (want && nz) || (!want && zr) {
+						return true
+					}
+				}
+				return false
+			}
+			blk := ph.Block()
+			if 1-i < len(blk.Preds) && i < len(blk.Preds) && remNZ(guardsOnEdge(blk.Preds[1-i], blk), true) {
+				return divCeil, stripIntConv(q.X), q.Y
+			}
+		}
+	}
 	plus := int64(0)
 	if base, c := splitAddConst(v); base != v {
 		v, plus = stripIntConv(base), c
